@@ -204,6 +204,12 @@ class NativeVC:
         return self._get(name)
 
     # ---- facts
+    def raw(self, fn):
+        try:
+            return fn()
+        except IndexError:
+            return True
+
     def forall(self, lo, hi, fn):
         return all(fn(m) for m in range(lo, hi))
 
